@@ -196,7 +196,9 @@ def _linear_model(dadi, rng):
     B = np.array([np.where(mid, 1 / np.maximum(i, 1), 0), np.where(mid, i / n, 0), np.where(mid, 1.0, 0)]).T
 
     def model(p, ns, pts):
-        return dadi.Spectrum(B @ np.asarray(p, float))
+        # (mildly grid dependent, as every real model is: the same parameters at another grid setting are another spectrum)
+        g = float(np.atleast_1d(pts)[0])
+        return dadi.Spectrum((B @ np.asarray(p, float)) * (1 + 2.0 / g))
     p0 = np.array([30., 12., 4.])
     data = dadi.Spectrum(rng.poisson(B @ p0).astype(float) + 0.5 * mid)
     boots = [dadi.Spectrum(rng.poisson(B @ p0).astype(float)) for _ in range(6)]
@@ -462,6 +464,14 @@ def build(name, argseed, dadi, env):
         p = [float(v) for v in p0 * np.array(scale)]
         if int(argseed) == 2:
             p = np.array(p, dtype=float)       # the parameter vector as a float64 array (the caller's own object must come back untouched)
+        if fn.endswith("-pts"):
+            # the same function object, parameters and data at three grid settings: what is memoised for one must not be served for another
+            G = [[10], [16], [12]][int(argseed) % 3]
+            model, p0, data, boots = env.get("godambe-0", lambda: _linear_model(dadi, rng_of("godambe-env", 0)))
+            q0 = [float(v) for v in p0]
+            if fn == "FIM_uncert-pts":
+                return (lambda q, G=G: Godambe.FIM_uncert(model, G, q, data, multinom=False)), [q0], {}, F
+            return (lambda q, G=G: Godambe.GIM_uncert(model, G, boots, q, data, multinom=False)), [q0], {}, F
         if fn == "Wald_stat":
             return (lambda q: Godambe.Wald_stat(model, [10], boots, q, data, [1], [float(v) for v in np.asarray(q) * np.array([1.0, 1.3, 1.0])], multinom=False)), [p], {}, F
         if fn == "FIM_uncert":
@@ -551,7 +561,7 @@ CATALOG = (
                                   "Anscombe_Poisson_residual", "project_up", "project_down",
                                   "optim-optimize_log_lbfgsb", "optim-optimize_lbfgsb", "optim-optimize_log", "optim-optimize", "optim-optimize_log_fmin", "optim-opt",
                                   "ratio-of-data-spectra")]
-    + ["Godambe." + m for m in ("get_hess", "sum_chi2_ppf", "FIM_uncert", "GIM_uncert", "LRT_adjust", "score_stat", "Wald_stat")]
+    + ["Godambe." + m for m in ("get_hess", "sum_chi2_ppf", "FIM_uncert", "GIM_uncert", "LRT_adjust", "score_stat", "Wald_stat", "FIM_uncert-pts", "GIM_uncert-pts")]
     + ["LowPass." + m for m in ("partitions", "projection_matrix", "calling_error_matrix", "no_call", "lowpass_model", "cov_dist_model")]
     + ["Misc." + m for m in ("count_data_dict", "fragment_data_dict", "perturb_params")]
     + ["DFE.integrate", "DFE.integrate_point_pos", "Demes.output"]
